@@ -677,6 +677,7 @@ func plan() []group {
 	base = append(base, planSig()...)
 	base = append(base, planParse()...)
 	base = append(base, planAlias()...)
+	base = append(base, planChain()...)
 	var gs []group
 	for rep := 0; rep < reps; rep++ {
 		for _, g := range base {
@@ -690,7 +691,7 @@ func plan() []group {
 func TestCheck(t *testing.T) {
 	rec = mon.Open("C17")
 	defer rec.Close()
-	rec.Note("rule", "A case is one call into kit: (function, algorithm, success/failure path, argument lengths, per-argument layout off/spare, repetition). Every []byte argument (and every raw key slice given to jwk.FromRaw, which jwx retains by reference) is arr[off:off+len:off+len+spare] of its own canary-filled array, off in {0,1,16}, spare in {0,1,15,16,17,64}; after the call the whole array (before the slice, slice, spare capacity, 8 guard bytes) is compared with its snapshot; only dst[len:cap] of the explicit aescbcaead Seal/Open dst may differ. Returned slices are located against every argument array. Repetition 0 is a systematic sweep: all algorithms of SupportedSymmetric/Asymmetric/SignatureAlgorithms x lengths 0,1,15,16,17,31,32,33,48 x 18 rounds in which every argument position cycles through all 18 layouts x every success and failure path (wrong/short/long/nil tag, wrong nonce size, wrong key size/bytes/type, tampered or truncated ciphertext, wrong associated data, crafted bad padding, unsupported algorithm, too-long RSA plaintext, wrong digest size, ...). crypto.ParseKey: raw binary keys, base64 / base64url / hex key text with and without padding, JWK, JWK set, PEM of every block type the standard library marshals (PKCS#1, PKCS#8, PKIX, SEC1, X25519, CERTIFICATE, with headers), each with leading / trailing / interior blanks, tabs, LF and CRLF, folded and indented lines, truncated, doubled, under every content type and auto-detection branch, each parsed twice; seeded repetitions sprinkle 1-3 more blanks / tabs / line breaks at drawn positions; the parsed key is then serialized and used while the caller's buffer stays watched. The exported functions taking []byte are listed in the note api_exported_functions_taking_bytes (parsed from the source under test at start-up and required to equal the harness's covered list). Aliasing layouts (alias.* counters): for every function with two or more caller-owned byte buffers the arguments are additionally cut out of ONE array - ciphertext directly followed by the tag (ct=msg[:n] whose spare capacity is the tag, and ct=msg[:n:n]), nonce||ct||tag, ad||nonce||ct||tag, ad||ct||tag, tag||ct, key||ct||tag, nonce||pt, ad||nonce||pt, key||pt, pt||key, digest||signature, key||digest||signature, the slices a previous kit Encrypt/Seal/Sign call returned handed straight back (their whole capacity is snapshotted), and the same slice given as two arguments (associatedData==nonce, plaintext==label, digest==signature); each clean call is repeated once with the identical arguments, the memory judged again and the two results compared; results are compared with the expected plaintext/ciphertext. Repetitions >= 1 draw layouts, contents and a third of the lengths (0..80) from the seeded stream. distinct = distinct (function, algorithm, path, lengths, layouts, repetition) tuples; non-trivial = at least one watched argument has spare capacity > 0.")
+	rec.Note("rule", "A case is one call into kit: (function, algorithm, success/failure path, argument lengths, per-argument layout off/spare, repetition). Every []byte argument (and every raw key slice given to jwk.FromRaw, which jwx retains by reference) is arr[off:off+len:off+len+spare] of its own canary-filled array, off in {0,1,16}, spare in {0,1,15,16,17,64}; after the call the whole array (before the slice, slice, spare capacity, 8 guard bytes) is compared with its snapshot; only dst[len:cap] of the explicit aescbcaead Seal/Open dst may differ. Returned slices are located against every argument array. Repetition 0 is a systematic sweep: all algorithms of SupportedSymmetric/Asymmetric/SignatureAlgorithms x lengths 0,1,15,16,17,31,32,33,48 x 18 rounds in which every argument position cycles through all 18 layouts x every success and failure path (wrong/short/long/nil tag, wrong nonce size, wrong key size/bytes/type, tampered or truncated ciphertext, wrong associated data, crafted bad padding, unsupported algorithm, too-long RSA plaintext, wrong digest size, ...). crypto.ParseKey: raw binary keys, base64 / base64url / hex key text with and without padding, JWK, JWK set, PEM of every block type the standard library marshals (PKCS#1, PKCS#8, PKIX, SEC1, X25519, CERTIFICATE, with headers), each with leading / trailing / interior blanks, tabs, LF and CRLF, folded and indented lines, truncated, doubled, under every content type and auto-detection branch, each parsed twice; seeded repetitions sprinkle 1-3 more blanks / tabs / line breaks at drawn positions; the parsed key is then serialized and used while the caller's buffer stays watched. The exported functions taking []byte are listed in the note api_exported_functions_taking_bytes (parsed from the source under test at start-up and required to equal the harness's covered list). Chained calls (chain.* counters): the inputs of a call are the live slices earlier kit calls returned, snapshotted over their whole capacity at call time - 2 and 3 layer decrypt-of-decrypt for every AEAD family and mixes (outer plaintext split into inner ciphertext and tag), unwrapped content key (AEAD, key wrap, CBC, RSA-OAEP) as the key of the payload decrypt (payload smaller and larger than the key message, decrypted twice), decrypted value as associated data / nonce of a smaller or larger second message, encrypt->encrypt->decrypt->decrypt entirely on returned slices, decrypt->digest->sign->verify, aescbcaead Open->Open. Aliasing layouts (alias.* counters): for every function with two or more caller-owned byte buffers the arguments are additionally cut out of ONE array - ciphertext directly followed by the tag (ct=msg[:n] whose spare capacity is the tag, and ct=msg[:n:n]), nonce||ct||tag, ad||nonce||ct||tag, ad||ct||tag, tag||ct, key||ct||tag, nonce||pt, ad||nonce||pt, key||pt, pt||key, digest||signature, key||digest||signature, the slices a previous kit Encrypt/Seal/Sign call returned handed straight back (their whole capacity is snapshotted), and the same slice given as two arguments (associatedData==nonce, plaintext==label, digest==signature); each clean call is repeated once with the identical arguments, the memory judged again and the two results compared; results are compared with the expected plaintext/ciphertext. Repetitions >= 1 draw layouts, contents and a third of the lengths (0..80) from the seeded stream. distinct = distinct (function, algorithm, path, lengths, layouts, repetition) tuples; non-trivial = at least one watched argument has spare capacity > 0.")
 	rec.Note("require", []string{
 		"selftest.passed",
 		"fn.padding.PadPKCS7", "fn.padding.UnpadPKCS7", "fn.aeskw.Wrap", "fn.aeskw.Unwrap",
@@ -716,6 +717,10 @@ func TestCheck(t *testing.T) {
 		"alias.layout.nonce|sealed", "alias.layout.ad|nonce|sealed", "alias.layout.nonce|sealed/tight", "alias.layout.key|sealed",
 		"alias.crypto.DecryptSymmetric.ct|tag", "alias.crypto.Decrypt.ct|tag", "alias.crypto.DecryptSymmetric.returned-slices", "alias.crypto.Decrypt.returned-slices",
 		"alias.second_call_same_result", "alias.output_correct",
+		// chained calls: inputs are slices returned by earlier kit calls
+		"chain.inputs_from_returned_slices", "chain.output_correct",
+		"chain.layered-decrypt.completed", "chain.unwrap->key.completed", "chain.decrypt->ad.completed", "chain.decrypt->nonce.completed",
+		"chain.encrypt->encrypt->decrypt->decrypt.completed", "chain.decrypt->digest->sign->verify.completed", "chain.aead-open->open.completed",
 		// ParseKey: every dispatch branch; the source's list of exported []byte functions equals the covered list
 		"api.all_exported_byte_functions_covered",
 		"parse.branch.symmetric", "parse.branch.json", "parse.branch.json-detected", "parse.branch.pem", "parse.branch.pem-detected", "parse.branch.empty",
@@ -755,6 +760,8 @@ func TestCheck(t *testing.T) {
 				runAliasSig(gc, g)
 			case "alias-aead":
 				runAliasAEAD(gc, g)
+			case "chain":
+				runChain(gc, g)
 			}
 			rec.Progress()
 		}
